@@ -560,7 +560,7 @@ func runStress(r *ev.Run, dir string) {
 			var err error
 			select {
 			case err = <-done:
-			case <-time.After(20 * time.Minute):
+			case <-time.After(childWatchdog(r)):
 				_ = cmd.Process.Kill()
 				<-done
 				r.Inconclusive("stress child watchdog")
@@ -875,4 +875,12 @@ func runOverlapRound(sp stressSpec, round int, out *stressOut) {
 			return
 		}
 	}
+}
+
+// childWatchdog is the generous wall-clock guard around one stress child; its firing is inconclusive, never a violation.
+func childWatchdog(r *ev.Run) time.Duration {
+	if r.Thorough() {
+		return 90 * time.Minute
+	}
+	return 20 * time.Minute
 }
